@@ -16,7 +16,9 @@
 (*     (the property leaves open whether filling overrides a read-only field; nothing else  *)
 (*     may happen to it).                                                                   *)
 (* Hence Fill(d, Export(d)) = d, and Export(Fill(d, v)) = v on unlocked fields.             *)
-(* Valid values per type: text - any string of the field's repertoire within MaxLen;        *)
+(* Valid values per type: text - any string of the field's repertoire within MaxLen, also   *)
+(* text that happens to look like a date (pdfcpu then lists the field among the date fields *)
+(* of the export - a presentation detail; the state, a name -> value map, is unaffected);   *)
 (* date - a date in the field's format or none; radio/combo/list - existing options.        *)
 (* Strings starting with @ are tokens the harness expands: @latin (Latin-1 letters), @esc   *)
 (* (parentheses, backslash), @spaces (leading/trailing blanks), @lines (two lines),         *)
@@ -43,8 +45,8 @@ Injective(s) == \A i, j \in 1..Len(s) : i # j => s[i] # s[j]
 
 (* value repertoires (what the generator may choose; all of them valid) *)
 TextVals(f) == IF f.maxlen > 0 THEN {"abc", "12345", "x", ""}                   \* all within maxlen 5
-               ELSE IF f.multi THEN {"@lines", "one line", "", "@latin", "@astral", "@cjk"}
-               ELSE {"Plain", "", "@latin", "@esc", "@spaces", "@astral", "@cjk", "@cyr"}
+               ELSE IF f.multi THEN {"@lines", "one line", "", "@latin", "@astral", "@cjk", "2001-12-24"}
+               ELSE {"Plain", "", "@latin", "@esc", "@spaces", "@astral", "@cjk", "@cyr", "24.12.2001", "2001-12-24"}
 DateVals(f) == CASE f.fmt = "dd.mm.yyyy" -> {"31.12.1999", "01.02.2003", "29.02.2024", ""}
                  [] f.fmt = "yyyy-mm-dd" -> {"2020-05-06", "1999-12-31", ""}
 
@@ -61,8 +63,8 @@ Valid(f, v) ==
 (* entry of a single-select list is not an operation a form offers)                              *)
 SetVals(f) ==
   CASE f.type = "text"  -> IF f.maxlen > 0 THEN << <<"abc">>, <<"12345">>, <<"">>, <<"x">> >>
-                           ELSE IF f.multi THEN << <<"@lines">>, <<"@astral">>, <<"one line">>, <<"">>, <<"@latin">>, <<"@cjk">> >>
-                           ELSE << <<"Plain">>, <<"@astral">>, <<"@latin">>, <<"@esc">>, <<"@cjk">>, <<"@spaces">>, <<"">>, <<"@cyr">> >>
+                           ELSE IF f.multi THEN << <<"@lines">>, <<"@astral">>, <<"2001-12-24">>, <<"one line">>, <<"">>, <<"@latin">>, <<"@cjk">> >>
+                           ELSE << <<"Plain">>, <<"@astral">>, <<"24.12.2001">>, <<"@latin">>, <<"@esc">>, <<"@cjk">>, <<"@spaces">>, <<"">>, <<"@cyr">>, <<"2001-12-24">> >>
     [] f.type = "date"  -> IF f.fmt = "dd.mm.yyyy" THEN << <<"31.12.1999">>, <<"01.02.2003">>, <<"">>, <<"29.02.2024">> >>
                            ELSE << <<"2020-05-06">>, <<"1999-12-31">>, <<"">>, <<"2020-05-06">> >>
     [] f.type = "check" -> << <<"t">>, <<"f">>, <<"t">>, <<"f">> >>
@@ -70,7 +72,7 @@ SetVals(f) ==
     [] f.type = "combo" -> << <<"London">>, <<"San Francisco">>, <<"@astral">>, <<"">>, <<"Sidney">> >>
     [] f.type = "list"  -> IF f.multi THEN << <<"x", "z">>, <<"@astral", "y">>, <<"y">>, <<"z", "y">>, <<>>, <<"x", "y", "z", "@astral">> >>
                            ELSE << <<"x">>, <<"@cjk">>, <<"z">>, <<"y">> >>
-NV == 8     \* the longest repertoire
+NV == 10    \* the longest repertoire
 (* initial values additionally cover the unset states *)
 InitVals(f) ==
   CASE f.type = "radio" -> Append(SetVals(f), <<"">>)
